@@ -314,7 +314,7 @@ func TestC18_ReadOnlyMode(t *testing.T) {
 	}
 	a := newAPIServer(false)
 	defer a.Close()
-	runRapid(t, N(4000, 100000), func(rt *rapid.T) {
+	runRapid(t, N(4000, 2500000), func(rt *rapid.T) {
 		raw, desc, _, method := genRequest(rt, ops)
 		st1, _, ok := a.do(raw)
 		if !ok {
